@@ -250,6 +250,10 @@ func TestC02(t *testing.T) {
 			pick = append(pick, mi)
 		}
 	}
+	// user-defined messages too: ids up to 0xABCDEF (above 65535) and shapes the shipped set lacks
+	if users, err := userMsgInfos(); err == nil {
+		pick = append(pick, users...)
+	}
 	// one dialect with all picked types (ids unique by construction of newGateEnv)
 	genv, err := newGateEnv(pick)
 	if err != nil {
@@ -408,6 +412,51 @@ func TestC02(t *testing.T) {
 			}
 		}
 	}
+	// (3b) a reader that also holds a link key still applies the checksum gate: a frame whose checksum is wrong but which was
+	// signed (with the right key) over that wrong checksum must not be delivered as a decoded message
+	{
+		keyRaw := vh.Sub(seed, "c02-key").Bytes(32)
+		key := frame.NewV2Key(keyRaw)
+		for _, mi := range genv.sorted() {
+			for k := 0; k < vh.Pick(2, 20); k++ {
+				s, _ := validFrame(r, mi, 2, r.Intn(3), true, keyRaw)
+				bad := *s
+				bad.Checksum ^= uint16(1) << uint(r.Intn(16))
+				bad.Signature = ref.SignatureOfWire(keyRaw, ref.Serialize(&bad))
+				stream := append(ref.Serialize(&bad), ref.Serialize(s)...)
+				rep.Eval(1)
+				rep.Distinct(stream)
+				rep.Count("resigned_wrong_checksum_frames", 1)
+				guard(rep, "kind=panic msg="+mi.Name, func() interface{} { return vh.Hex(stream) }, func() {
+					rd := &frame.Reader{ByteReader: bytes.NewReader(stream), DialectRW: genv.drw, InKey: key}
+					_ = rd.Initialize()
+					n := 0
+					for {
+						fr, err := rd.Read()
+						if err == io.EOF {
+							break
+						}
+						if err != nil {
+							if _, ok := err.(frame.ReadError); !ok {
+								break
+							}
+							continue
+						}
+						n++
+						if !genv.justified(stream, fr, keyRaw) {
+							rep.Violation(fmt.Sprintf("kind=unjustified msg=%s damage=resigned", mi.Name),
+								"a keyed reader delivered a decoded message from a correctly signed frame whose checksum is wrong",
+								map[string]interface{}{"stream": vh.Hex(stream)})
+						}
+					}
+					if n == 0 {
+						rep.Violation(fmt.Sprintf("kind=undelivered msg=%s", mi.Name), "the valid signed frame following the bad one was not delivered", vh.Hex(stream))
+					}
+				})
+			}
+		}
+	}
+
 	// (4b) completeness on long streams in arbitrary transport chunks: every frame of a multi-kilobyte stream of valid
 	// frames (longer than the reader's buffer) must be delivered in order with the right value, whatever the chunking
 	{
